@@ -5,7 +5,8 @@
     magic (MC_RepeWire, ~35 000 vectors) with the verdict the specification gives for each entry
     family (Header::decode / slice parsers / exact parsers / stream readers); ASSUME VerdictProps
     checks the verdict function itself.
- 2. spec -> impl: every vector is executed on all nine entry points in a child process (a panic is
+ 2. spec -> impl: every vector is executed on all nine entry points, and on the two buffer-reusing
+    readers with a buffer that has already held two smaller frames, in a child process (a panic is
     caught and reported, an abort is attributed to the case being run); ok/err and the returned
     query/body regions are compared with the specification.
  3. impl -> spec: random byte strings <= 4 KiB and structured mutations of valid frames are
